@@ -1,5 +1,7 @@
 import Gedcom.Model.Html
 import Gedcom.Model.HtmlSinks
+import Gedcom.Model.HtmlProg
+import Gedcom.Generated.Pages
 import Driver.Util
 namespace Driver
 open Gedcom Gedcom.Html
@@ -101,6 +103,52 @@ partial def parseHtmlComp (toks : List String) : Option (Comp × List String) :=
       pure (mkPage t b g, r)
     | _ => none
 
+
+/-! ### component programs (`Generated.pagePrograms`) on the wire
+
+  `<Name> S n hex… I n int… B n 0/1… G hex R n (id hex)… K n kid… L n (m kid…)…` where a kid is
+  `P <invocation>` (a nested program) or a component tree in the notation above. -/
+
+def repeatP {α : Type} (f : List String → Option (α × List String)) : Nat → List String → Option (List α × List String)
+  | 0, r => some ([], r)
+  | n+1, r => do
+    let (a, r) ← f r
+    let (as, r) ← repeatP f n r
+    pure (a :: as, r)
+
+def countedP {α : Type} (tag : String) (f : List String → Option (α × List String)) :
+    List String → Option (List α × List String)
+  | t :: n :: r => if t == tag then (n.toNat?).bind fun n => repeatP f n r else none
+  | _ => none
+
+mutual
+partial def parseProgInv (toks : List String) : Option ((Prog × Env) × List String) :=
+  match toks with
+  | name :: r => do
+    let p ← (Generated.pagePrograms.lookup name)
+    let hexP : List String → Option (Str × List String) := fun r =>
+      match r with | x :: r => (fromHex x).map (·, r) | [] => none
+    let (strs, r) ← countedP "S" hexP r
+    let (ints, r) ← countedP "I" (fun r => match r with | x :: r => x.toInt?.map (·, r) | [] => none) r
+    let (bools, r) ← countedP "B" (fun r => match r with | "1" :: r => some (true, r) | "0" :: r => some (false, r) | _ => none) r
+    let (ga, r) ← (match r with | "G" :: x :: r => (fromHex x).map (·, r) | _ => none)
+    let (raws, r) ← countedP "R" (fun r => match r with
+      | i :: x :: r => (i.toNat?).bind fun i => (fromHex x).map fun v => ((i, v), r)
+      | _ => none) r
+    let (kids, r) ← countedP "K" parseProgKid r
+    let (lists, r) ← countedP "L" (fun r => match r with
+      | m :: r => (m.toNat?).bind fun m => repeatP parseProgKid m r
+      | [] => none) r
+    pure ((p, { strs := strs, ints := ints, bools := bools, kids := kids, lists := lists, raws := raws, ga := ga }), r)
+  | [] => none
+partial def parseProgKid (toks : List String) : Option (Comp × List String) :=
+  match toks with
+  | "P" :: r => do
+    let ((p, ρ), r) ← parseProgInv r
+    pure (eval ρ p, r)
+  | _ => parseHtmlComp toks
+end
+
 def showLexState : LState → String
   | .data => "data" | .lt => "lt" | .bang _ => "comment" | .tagName _ _ => "tag-name"
   | .inTag _ _ => "in-tag" | .attrName _ _ => "attr-name" | .afterEq _ => "after-eq"
@@ -147,6 +195,18 @@ def handleHtml (cmd : String) (rest : List String) : Option String :=
     match parseHtmlComp rest with
     | some (c, []) => some (b2s (trusted c) ++ b2s (wellNested (render c)))
     | _ => some "bad-op"
+  | "prog" =>
+    -- a regenerated component program under the harness's hole values: the bytes it renders, and
+    -- progOk / envOk / trusted / wellNested / "same skeleton as with every string blanked"
+    match parseProgInv rest with
+    | some ((p, ρ), []) =>
+      let c := eval ρ p
+      let out := render c
+      let same := skeleton out == skeleton (render (eval (blankEnv ρ) p))
+      some (toHex out ++ " ok=" ++ b2s (progOk p) ++ b2s (envOk ρ) ++ b2s (trusted c) ++ b2s (wellNested out) ++ b2s same)
+    | _ => some "bad-op"
+  | "progs" =>
+    some s!"translated={Generated.pagePrograms.length} ok={(Generated.pagePrograms.filter fun np => progOk np.2).length} untranslated={Generated.pageUntranslated.length} rejected={",".intercalate ((Generated.pagePrograms.filter fun np => !progOk np.2).map (·.1))}"
   | "text" =>
     match rest with
     | [h] => match fromHex h with | some s => some (toHex (renderText s)) | none => some "bad-op"
